@@ -77,7 +77,7 @@ Definition xdtag (cmd : str) (pairs : list str) (s : st) : dtag * st :=
   match fmt s with
   | FX => let s := check_attributes [R "class"; R "id"] pairs s in
           (mkDtag cmd pairs, if existsb (fun e => str_eqb cmd (runes e)) flow_elems then s else err "element does not allow all flowing content (warning)" s)
-  | FL => (mkDtag cmd pairs, if contains_any [123; 125; 92] cmd then err "-c option argument should not contain braces or backslashes" s else s)
+  | FL => (mkDtag cmd pairs, if contains_any tex_name_bad_chars cmd then err "-c option argument should not contain braces or backslashes" s else s)
   | _ => (mkDtag cmd [], s)
   end.
 Definition xmtag (cmd : option str) (b e : str) (pairs : list str) (s : st) : mtag * st :=
@@ -86,7 +86,7 @@ Definition xmtag (cmd : option str) (b e : str) (pairs : list str) (s : st) : mt
           let c := match cmd with Some (x :: r) => x :: r | _ => R "em" end in
           (mkMtag b c e pairs, if existsb (fun x => str_eqb c (runes x)) phrasing_elems then s else err "not an html phrasing element" s)
   | FL => let c := match cmd with Some (x :: r) => x :: r | _ => R "emph" end in
-          (mkMtag b c e pairs, if contains_any [123; 125; 92] c then err "-c option argument should not contain braces or backslashes" s else s)
+          (mkMtag b c e pairs, if contains_any tex_name_bad_chars c then err "-c option argument should not contain braces or backslashes" s else s)
   | FM => (mkMtag b (match cmd with Some (x :: r) => x :: r | _ => R "I" end) e [], s)
   | FK => let c := match cmd with Some x => x | None => R "*" end in
           (mkMtag b c e [], if existsb (str_eqb c) [R "*"; R "**"; R "_"; R "__"; R "`"; []] then s else err "not a supported markdown inline markup delimiter" s)
